@@ -10,6 +10,7 @@ import optrun
 from optmodel import check_indices
 
 PROP = "C12"
+CONCURRENT = "parse"   # extra phase: lib/mtindep.py (parsers used by several threads at once)
 LEVEL = "exploration"
 RULE = ("accepted counts {none, 0, 1, 2, 3, unlimited} x greedy on/off x all vectors up to length 4 "
         "(quick) / 5 (thorough) over {value, empty value, a=b, option=value, option awaiting its value, "
